@@ -49,7 +49,7 @@ func init() {
 				return 10_000
 			}, Run: c15Pixels,
 				Rule: "a full-rectangle path filled with a gradient is rasterised by raster/vec into an RGBA image at a non-zero rectangle origin; interior pixels must equal the reference colour at the rectangle-relative pixel centre (8-bit, +-2)",
-				Min:  map[string]int64{"pixel_checks": 50000, "rectangle_overhangs_image_top_left": 1000}},
+				Min:  map[string]int64{"pixel_checks": 50000, "rectangle_overhangs_image_top_left": 1000, "paths_covering_half_the_rectangle": 1000}},
 			{Name: "gradient-type", N: func(t string) uint64 {
 				if t == "thorough" {
 					return 5_000_000
@@ -604,6 +604,15 @@ func c15Pixels(c *run.Ctx, idx uint64) {
 		img = image.NewRGBA(image.Rect(q.rect.Min.X+ox, q.rect.Min.Y+oy, q.rect.Max.X+3, q.rect.Max.Y+3))
 		c.Count("rectangle_overhangs_image_top_left", 1)
 	}
+	// In half of the overhanging cases (and a tenth of the others) the path covers
+	// the left half of the rectangle only: where the shape ends is then visible, not
+	// only which colour it has. The image is prefilled with a sentinel colour.
+	half := (ox+oy > 0 && r.Bool()) || r.Chance(1, 10)
+	sentinel := color.RGBA{0x12, 0x34, 0x56, 0x78}
+	if half {
+		c.Count("paths_covering_half_the_rectangle", 1)
+		draw.Draw(img, img.Bounds(), image.NewUniform(sentinel), image.Point{}, draw.Src)
+	}
 	var z render.Renderer
 	z.SetRasterizer(&vec.Rasterizer{Dst: img, DrawOp: draw.Src}, q.rect)
 	z.Reset(q.vb, ivg.DefaultPalette)
@@ -611,9 +620,13 @@ func c15Pixels(c *run.Ctx, idx uint64) {
 		q.setup(&z, r)
 		// a path slightly larger than the viewBox so that every pixel of the rectangle is fully covered
 		dx, dy := (q.vb.MaxX-q.vb.MinX)*0.5+1, (q.vb.MaxY-q.vb.MinY)*0.5+1
+		right := q.vb.MaxX + dx
+		if half {
+			right = q.vb.MinX + (q.vb.MaxX-q.vb.MinX)/2
+		}
 		z.StartPath(0, q.vb.MinX-dx, q.vb.MinY-dy)
-		z.AbsLineTo(q.vb.MaxX+dx, q.vb.MinY-dy)
-		z.AbsLineTo(q.vb.MaxX+dx, q.vb.MaxY+dy)
+		z.AbsLineTo(right, q.vb.MinY-dy)
+		z.AbsLineTo(right, q.vb.MaxY+dy)
 		z.AbsLineTo(q.vb.MinX-dx, q.vb.MaxY+dy)
 		z.ClosePathEndPath()
 	})
@@ -624,12 +637,43 @@ func c15Pixels(c *run.Ctx, idx uint64) {
 	if c.WantSample() {
 		c.Sample(q.desc())
 	}
+	if half {
+		// nothing outside the rectangle is touched
+		b := img.Bounds()
+		for y := b.Min.Y; y < b.Max.Y; y++ {
+			for x := b.Min.X; x < b.Max.X; x++ {
+				if !(image.Pt(x, y).In(q.rect)) && img.RGBAAt(x, y) != sentinel {
+					d := q.desc()
+					d["pixel_in_image_coordinates"], d["got_8bit"] = []int{x, y}, fmt.Sprint(img.RGBAAt(x, y))
+					c.Violate("pixels/pixel-outside-the-rectangle-modified", d)
+					return
+				}
+			}
+		}
+	}
 	for y := oy; y < h; y++ {
 		for x := ox; x < w; x++ {
 			if (x+y)%3 != 0 && w*h > 200 {
 				continue
 			}
 			px := img.RGBAAt(q.rect.Min.X+x, q.rect.Min.Y+y)
+			if half {
+				// two pixels on either side of the path's right edge are not judged; beyond
+				// it the Src operator leaves transparent black inside the rectangle
+				if x >= w/2-2 && x <= w/2+2 {
+					continue
+				}
+				if x > w/2+2 {
+					c.Count("pixel_checks", 1)
+					if px != (color.RGBA{}) {
+						d := q.desc()
+						d["pixel"], d["got_8bit"] = []int{x, y}, fmt.Sprint(px)
+						c.Violate("pixels/painted-outside-the-path", d)
+						return
+					}
+					continue
+				}
+			}
 			got := color.RGBA64{uint16(px.R) * 257, uint16(px.G) * 257, uint16(px.B) * 257, uint16(px.A) * 257}
 			c.Count("pixel_checks", 1)
 			// 8-bit quantisation of the stored pixel: up to 257 below, plus coverage rounding
